@@ -4,7 +4,7 @@
    of coq/C04/Spec.v.  Proofs are in coq/C04/Proofs*.v; nothing here but statements.
    Every theorem is for ALL configurations (any number and kind of processors), all start options and
    ALL sequences of operations (incl. operations after End and further Ends). *)
-From V Require Import C04.Glue C04.ProofsMap C04.ProofsStep C04.ProofsMeets C04.ProofsHeap C04.ProofsProps C04.ProofsWire C04.ProofsPar C04.ProofsRace.
+From V Require Import C04.Glue C04.ProofsMap C04.ProofsStep C04.ProofsMeets C04.ProofsHeap C04.ProofsProps C04.ProofsWire C04.ProofsPar C04.ProofsRace C04.ProofsLts C04.ProofsLtsOrder C04.ProofsLtsRace.
 Local Open Scope Z_scope.
 
 (* --- sentence 1: what each configured processor's exporter receives.  The whole final state of a case:
@@ -199,3 +199,58 @@ Theorem every_interleaving_same_export : forall (ths : list (list (op oval))) (l
   rec_answers true l = rec_answers true (List.concat ths).
 Proof. exact every_interleaving_same_export_lemma. Qed.
 Print Assumptions every_interleaving_same_export.
+
+(* ================================================================== concurrency, at lock granularity (coq/C04/Lts.v)
+   Any number of threads on ONE span whose recordable fans out to any number of processors; events: begin / return of the public
+   calls, Span::mu_ taken / released, a processor handed its child inside End's critical section.  [accept_all] accepts exactly
+   the traces of that machine - every interleaving. *)
+
+(* --- refinement: whenever mu_ is free, the span and the processors are in the state of the SEQUENTIAL machine after the calls
+   in the order in which they took mu_ *)
+Theorem lts_refines_sequential : forall c s tr s', accept_all (linit c s) tr = Some s' -> l_mu s' = None ->
+  world_of s' = run_ops (start_span c s) (l_lin s').
+Proof. exact ProofsLts.lts_refines_sequential. Qed.
+Print Assumptions lts_refines_sequential.
+
+(* --- hence, for every interleaving, once some End has taken the lock: End took effect exactly once; every processor was handed
+   exactly one span, all of them the [export] of the calls in lock order (= the fold of the setters that took mu_ before the first
+   End did, with that End's duration - export_content, last_write_wins_per_key, events_links_in_call_order apply to it); nothing
+   that took the lock later is in it; IsRecording answered true exactly to the calls that took the lock before that End *)
+Theorem concurrent_export : forall c s tr s', c_sampled c = true ->
+  accept_all (linit c s) tr = Some s' -> l_mu s' = None -> existsb is_end (l_lin s') = true ->
+  l_rec s' = None /\ l_ended s' = true /\
+  l_got s' = map (fun _ => [export c s (l_lin s')]) (c_procs c) /\
+  l_q s' = rec_answers true (l_lin s').
+Proof. exact ProofsLts.concurrent_export. Qed.
+Print Assumptions concurrent_export.
+
+(* a setter that arrives while End hands the span to the processors cannot enter: it waits for mu_ *)
+Theorem no_lock_while_held : forall s t t', l_mu s = Some t' -> accept s (t, LLock) = None.
+Proof. exact ProofsLts.no_lock_while_held. Qed.
+Print Assumptions no_lock_while_held.
+
+(* --- the lock order is a linearization: it contains every call that returned, each call once, and whenever x returned before
+   y began (real time, as the B / R history shows it) x took mu_ before y *)
+Theorem lock_order_is_linearization : forall ths c s evs s',
+  replay ths (linit c s) (fun _ => O) evs 0 = inl s' ->
+  let ids := ids_of (fun _ => O) evs in let h := hist_of evs in
+  l_lin s' = map (op_at ths) ids /\ NoDup ids /\
+  (forall x, has false x h -> In x ids) /\ (forall x, In x ids -> has true x h) /\
+  (forall x y, In y ids -> before h x y = true -> precedes x y ids).
+Proof. exact ProofsLtsOrder.lock_order_is_linearization. Qed.
+Print Assumptions lock_order_is_linearization.
+
+(* --- every accepted trace passes SpecRace's clauses (a), (b) and the clauses about StartSpan's / the provider's data *)
+Theorem accepted_trace_race_clauses_ab : forall (c : cfg aval) (s : start aval) (ths : list (list (op aval))) evs s' x,
+  c_sampled c = true ->
+  replay (conv_threads ths) (linit (map_cfg conv c) (map_start conv s)) (fun _ => O) evs 0 = inl s' ->
+  l_mu s' = None ->
+  has false x (hist_of evs) -> is_end (op_at (conv_threads ths) x) = true ->
+  l_got s' = map (fun _ => [export (map_cfg conv c) (map_start conv s) (l_lin s')]) (c_procs c) /\
+  race_check c s ths (hist_of evs) (l_got s') =
+  ((match c_procs c with
+    | [] => []
+    | _ => check (race_cut_exists (hist_of evs) s (number_threads 0 ths) (export (map_cfg conv c) (map_start conv s) (l_lin s'))) cut_tag
+    end) ++ check (isrec_ok (hist_of evs) (number_threads 0 ths)) isrec_tag)%list.
+Proof. exact ProofsLtsRace.accepted_trace_race_clauses_ab. Qed.
+Print Assumptions accepted_trace_race_clauses_ab.
